@@ -137,6 +137,20 @@ def install(ex, mod):
         _init(ex, st, a[0]); _set(ex, st, a[0], a[1], _cstrlen(ex, st, a[1]))
     for n in ("_ZNSt7__cxx1112basic_stringIcSt11char_traitsIcESaIcEEC2IS3_EEPKcRKS3_", "_ZNSt7__cxx1112basic_stringIcSt11char_traitsIcESaIcEEC1IS3_EEPKcRKS3_"):
         if n in mod.funcs or n in mod.decls: ex.contracts[n] = ctor_cstr
+    # pieces of the iterator-range constructor basic_string(first, last) that clang instantiates in the TU
+    def m_construct(ex, st, a):
+        s_, first, last = a[0], a[1], a[2]
+        _init(ex, st, s_)
+        n = smt.sub(last.off, first.off)
+        _set(ex, st, s_, first, n)
+    for n in list(mod.funcs) + list(mod.decls):
+        d = dm.get(n) or build.demangle([n])[n]
+        if d.startswith("void " + S + "_M_construct<char const*>(char const*, char const*"): ex.contracts[n] = m_construct
+        if d == S + "_M_local_data()": ex.contracts[n] = lambda ex, st, a: Ptr(a[0].obj, smt.add(a[0].off, 16))
+        if d.startswith(S + "_Alloc_hider::_Alloc_hider(char*"): ex.contracts[n] = lambda ex, st, a: ex.store_raw(st, Ptr(a[0].obj, a[0].off), 8, a[1])
+    def append_pn(ex, st, a):
+        _append(ex, st, a[0], a[1], a[2]); return a[0]
+    reg("append(char const*, unsigned long)", append_pn)
     # allocator<char> ctor/dtor
     for n in mod.decls:
         d = dm.get(n, "")
